@@ -14,6 +14,8 @@ open Dashu.Props.C12
 #print axioms ilog_spec
 #print axioms remove_spec
 #print axioms log2_table_sound
+#print axioms log2_u8_table_sound
+#print axioms log2_wide_table_sound
 #print axioms nth_root_zero_asIs_counterexample
 #print axioms sqrt_rem_asIs_counterexample
 #print axioms ibig_cbrt_asIs_counterexample
